@@ -394,4 +394,6 @@ def run(ctx):
     ctx.borrow("C11", ["R-C11.4"], "R-C07.10")
     # the committed batch is the transaction's final write set
     ctx.borrow("C08", ["R-C08.4"], "R-C07.11")
+    # the single-operation helpers really run (and commit) the operation they are named after
+    ctx.borrow("C08", ["R-C08.10"], "R-C07.12", only_instances=["tx::optimistic", "forwarded", "commits"])
 
